@@ -16,7 +16,7 @@ def empty : Acc := { entries := [], index := [], bytes := 0 }
 variable (key : Bytes → Bytes)
 
 /-- admission behind the "already in the pool" guard (v0 `addTx`, v1 `insertTx`) -/
-def admit (a : Acc) (tx : Bytes) : Acc :=
+def admitTx (a : Acc) (tx : Bytes) : Acc :=
   if key tx ∈ a.index then a
   else { entries := a.entries ++ [tx], index := a.index ++ [key tx], bytes := a.bytes + (tx.length : Int) }
 
@@ -38,19 +38,19 @@ def removeV1 (a : Acc) (tx : Bytes) : Acc :=
   else a
 
 inductive Op
-  | admit (tx : Bytes)
+  | add (tx : Bytes)
   | remove (tx : Bytes)
 
 def Op.tx : Op → Bytes
-  | .admit tx => tx
+  | .add tx => tx
   | .remove tx => tx
 
 def stepV0 (a : Acc) : Op → Acc
-  | .admit tx => admit key a tx
+  | .add tx => admitTx key a tx
   | .remove tx => removeV0 key a tx
 
 def stepV1 (a : Acc) : Op → Acc
-  | .admit tx => admit key a tx
+  | .add tx => admitTx key a tx
   | .remove tx => removeV1 key a tx
 
 end Tmv.Mempool.Keyed
